@@ -259,6 +259,9 @@ func runJob(r *ev.Run, root string, j job, bd *bigData) {
 		s.script()
 	}
 	s.finish()
+	if j.big {
+		s.releaseBig()
+	}
 	if s.n > 0 && j.path != "batch" {
 		a := s.rec.Attempts[s.n/2]
 		r.Sample(map[string]any{"backend": j.spec.String(), "path": j.path, "attempt": a})
